@@ -249,6 +249,24 @@ class Svc(rpyc.Service):
         return 77
 
 
+def table_sizes(conn):
+    """(local objects, proxy cache, request callbacks) of a connection; None only when there is NO connection (a failed
+    handshake).  A table that cannot be read is an infrastructure problem (exit 2) - never a silently skipped check."""
+    if conn is None:
+        return None
+    out = []
+    for name in ("_local_objects", "_proxy_cache", "_request_callbacks"):
+        try:
+            coll = getattr(conn, name)
+            if coll is None:
+                out.append(0)           # the table itself was dropped: nothing is held
+                continue
+            out.append(len(getattr(coll, "_dict", coll)))
+        except Exception as ex:  # noqa
+            raise Infrastructure("cannot read Connection.%s (the released check would be off): %r" % (name, ex))
+    return tuple(out)
+
+
 def annotate_nesting(events):
     """every write event gets `nested` = the kind of the message whose _dispatch it happens inside (None: not inside one)"""
     stack = {"A": [], "B": []}
@@ -654,10 +672,7 @@ class Harness(object):
         snap = {}
         for side in "AB":
             conn = self.conn[side]
-            try:
-                tables = (len(conn._local_objects._dict), len(conn._proxy_cache), len(conn._request_callbacks))
-            except AttributeError:
-                tables = None
+            tables = table_sizes(conn)
             snap[side] = dict(closed=bool(conn is not None and conn.closed), hooks=self.hooks[side], tables=tables,
                               close_results=list(self.close_results[side]),
                               outcomes=dict((k, list(v)) for k, v in self.outcomes.items()))
@@ -1249,6 +1264,8 @@ def correspondence(ctx):
             continue
         try:
             h, ls, meta = run_case(wname, f)
+        except Infrastructure:
+            raise                                         # exit 2, not a verdict
         except Exception as ex:  # noqa
             c.error = "harness crashed on %s %r: %r" % (wname, f, ex)
             return c
@@ -1484,10 +1501,7 @@ def run_real(transport, scenario):
             toks.append("w0:Fe")
         res["closed"] = bool(ca.closed)
         res["hooks"] = box["hooks"]["A"]
-        try:
-            res["tables"] = (len(ca._local_objects._dict), len(ca._proxy_cache), len(ca._request_callbacks))
-        except AttributeError:
-            res["tables"] = None
+        res["tables"] = table_sizes(ca)
         try:
             ca.close()
             res["close_again"] = None
@@ -1694,10 +1708,7 @@ def run_real_fault(transport, scenario, fault):
             toks.append("w0:Fe")
         res["closed"] = bool(ca.closed)
         res["hooks"] = box["hooks"]["A"]
-        try:
-            res["tables"] = (len(ca._local_objects._dict), len(ca._proxy_cache), len(ca._request_callbacks))
-        except AttributeError:
-            res["tables"] = None
+        res["tables"] = table_sizes(ca)
         try:
             ca.close()
             res["close_again"] = None
@@ -1822,10 +1833,7 @@ def run_real_threads(transport, scenario, fault=None):
         res["wait_out"] = "eof" if all(o == "eof" for o in res["wait_outs"]) else ",".join(res["wait_outs"])
         res["closed"] = bool(ca.closed)
         res["hooks"] = box["hooks"]["A"]
-        try:
-            res["tables"] = (len(ca._local_objects._dict), len(ca._proxy_cache), len(ca._request_callbacks))
-        except AttributeError:
-            res["tables"] = None
+        res["tables"] = table_sizes(ca)
         try:
             ca.close()
             res["close_again"] = None
@@ -1898,10 +1906,7 @@ def run_real_bg(transport, scenario):
         res["wait_out"] = outs.get(0)
         res["closed"] = bool(ca.closed)
         res["hooks"] = box["hooks"]["A"]
-        try:
-            res["tables"] = (len(ca._local_objects._dict), len(ca._proxy_cache), len(ca._request_callbacks))
-        except AttributeError:
-            res["tables"] = None
+        res["tables"] = table_sizes(ca)
         try:
             ca.close()
             res["close_again"] = None
@@ -2232,7 +2237,28 @@ def known_probes(ctx):
     finally:
         REAL_CEILING = saved
     r = real_oracle(res)
-    return [(PIPE_LOCAL_CLOSE_SIGNATURE, bool(r), (r[0] if r else "pipe: the blocked thread was released by the local close"))]
+    out = []
+    # the known finding is ONE symptom: the other thread is still blocked after the local close.  Everything else the
+    # statement says about this run (closed, hook once, all tables empty, closing again quiet) is judged as usual - a
+    # failure there is not the known finding and is reported under its own signature (not listed: a violation)
+    blocked = bool(res.get("threads_still_blocked"))
+    out.append((PIPE_LOCAL_CLOSE_SIGNATURE, blocked,
+                (r[0] if (r and blocked) else "pipe: the blocked thread was released by the local close")))
+    where = "pipe/local_close_while_waiter_blocked"
+    other = None
+    if not res.get("closed_in_time") or not res.get("closed"):
+        other = ("%s: side A did not become closed by its own close()" % where, "C11:side-never-became-closed")
+    elif res.get("hooks_after") != 1:
+        other = ("%s: disconnect hook ran %r times" % (where, res.get("hooks_after")), "C11:hook-count")
+    elif res.get("tables") is None or sum(res["tables"]) != 0:
+        other = ("%s: closed but holds %r" % (where, res.get("tables")), "C11:tables-not-cleared")
+    elif res.get("close_again") is not None:
+        other = ("%s: closing again raised %s" % (where, res["close_again"]), "C11:close-again-raises")
+    elif r and not blocked:
+        other = r
+    if other:
+        out.append((other[1] + "@pipe-local-close", True, other[0]))
+    return out
 
 
 def replay(case):
